@@ -59,9 +59,31 @@ def make_pairs(tier, rng):
         for prog, prov, tag in gen.enum_gated(cyclic=cyc, stride=stride, offset=rng.randrange(stride)):
             for mode in (("sync", "async") if thorough else (rng.choice(["sync", "async"]),)):
                 p2 = prog
+                if rng.random() < 0.5:
+                    # the SAME gate with its targets listed in the opposite order (END first): routing is by name, not position
+                    p2 = copy.deepcopy(prog)
+                    for n in p2["nodes"]:
+                        if n["kind"] in ("route", "ifelse"):
+                            n["targets"] = n["targets"][::-1]
                 if rng.random() < 0.5:      # node names that contain one another (decisions are compared by name)
                     p2 = gen.rename_nodes(prog, {"A": "step", "B": "step_b", "C": "b"})
                 pairs.append((gen.job(0, p2, prov, mode=mode), ("cyc/" if cyc else "dag/") + tag))
+    # CHAINED gates: a gate that is itself the target of another gate; everything is runnable at once, so whatever holds a
+    # gate's targets back until it has decided must hold the targets of a held-back gate back as well
+    for dopen_o in (True, False):
+        for dopen_i in (True, False):
+            for od in (["outer"], ["inner"], ["END"]):
+                for idc in (["work"], ["skip"]):
+                    for order in (0, 1, 2):
+                        outer = IR.route("outer", ["x"], ["inner", "END"], [od], default_open=dopen_o)
+                        inner = IR.route("inner", ["x"], ["work", "skip"], [idc], default_open=dopen_i)
+                        if od == ["outer"]:
+                            continue
+                        work, skip = IR.func("work", ["x"], ["w"]), IR.func("skip", ["x"], ["s"])
+                        nodes = [[outer, inner, work, skip], [work, skip, inner, outer], [inner, work, outer, skip]][order]
+                        for mode in ("sync", "async"):
+                            pairs.append((gen.job(0, IR.prog("top", copy.deepcopy(nodes), max_iter=10), [["x", "in.x"]], mode=mode),
+                                          f"chained-gates/{'open' if dopen_o else 'closed'}-{'open' if dopen_i else 'closed'}/{od[0]}/{idc[0]}/o{order}"))
     # the same gated programs with a DECLARED topology: the inferred data edges plus (legal, if discouraged) explicit
     # gate -> target pairs; routing must not depend on how the topology was stated
     declared = []
